@@ -184,6 +184,7 @@ class Sim:
         self.fn = {'load': set(), 'dump': set()}
         self.gov = {}        # cid -> [(effective meta, op index)]
         self.f10_dirty = set()
+        self.ltr_nov1 = set()   # classes that got a load key transform from a Meta that was not (yet) v1
         self.tainted40 = {}  # cid -> indices of the BindMeta operations (addressed to another class) that rewrote its Meta object
         self.tainted11 = {}  # cid -> indices of the definitions that left the foreign initialiser it picked up
         self.objt = {}       # Meta object -> indices of foreign definitions whose settings were merged into it
@@ -198,7 +199,7 @@ class Sim:
                 r[k] = v
         return r
 
-    MERGED = ('ltr', 'dtr', 'raise', 'skipdef', 'auto_tags', 'tag_key', 'marshal', 'skip_if')
+    MERGED = ('ltr', 'dtr', 'raise', 'skipdef', 'auto_tags', 'tag_key', 'marshal', 'skip_if', 'v1', 'v1_case')
     SPECIAL = ('rec', 'jk2f')          # __special_attrs__: taken from the first operand of `|` only
 
     @staticmethod
@@ -222,7 +223,10 @@ class Sim:
         own = self.own(c)
         if cfg is None:
             return self.norm(own)
-        return self.norm(cfg) if own is None else self.m_or(self.norm(own), self.norm(cfg))
+        if own is None:
+            # AbstractMeta | cfg: the merged settings are cfg's, the special attributes AbstractMeta's defaults
+            return dict(self.norm(cfg), **{k: None for k in Sim.SPECIAL})
+        return self.m_or(self.norm(own), self.norm(cfg))
 
     def cfg_of(self, c):
         own = self.own(c)
@@ -234,21 +238,35 @@ class Sim:
         out = [c]
         for _, ty, _ in self.decl[c]['fields']:
             if isinstance(ty, dict):
-                out.extend(self.tree(ty['nested']))
+                t = ty.get('nested', ty.get('fwd'))
+                if t in self.decl:          # a forward reference counts once its target exists
+                    out.extend(self.tree(t))
         return out
 
     @staticmethod
     def inst_classes(v):
-        if not isinstance(v, dict) or 'c' not in v:
+        if not isinstance(v, dict):
+            return []
+        if 'l' in v:
+            return [c for x in v['l'] for c in Sim.inst_classes(x)]
+        if 'd' in v:
+            return [c for _, x in v['d'] for c in Sim.inst_classes(x)]
+        if 'c' not in v:
             return []
         out = [v['c']]
         for _, x in v['f']:
             out.extend(Sim.inst_classes(x))
         return out
 
+    def note_bind(self, c, m):
+        """bind_to applies key_transform_with_load to the loader selected by the v1 flag OF THE META BEING BOUND"""
+        if m and (m.get('ltr') is not None or m.get('v1_case') is not None) and not m.get('v1'):
+            self.ltr_nov1.add(c)
+
     def _bind_default(self, c, r, legit):
         if r is None:
             return
+        self.note_bind(c, self.mobj.get(r))
         foreign = set() if legit else {self.def_idx.get(r[1], self.i)}
         foreign |= self.objt.get(r, set())
         if self.ref.get(c) is not None:
@@ -304,6 +322,7 @@ class Sim:
             return regions
         if k == 'bind':
             c = o['cid']
+            self.note_bind(c, o['meta'])
             r = self.ref.get(c)
             if r is None:
                 self.mobj[('B', c)] = dict(o['meta'])
@@ -332,7 +351,8 @@ class Sim:
         else:
             root = c
         # (extended grammar) the dump setup of a class with a bare-Condition field raises: nothing gets installed
-        gen_fails = kind == 'dump' and any(ty == 'badcond' for _, ty, _ in d['fields'])
+        gen_fails = (kind == 'dump' and any(ty == 'badcond' for _, ty, _ in d['fields'])) or \
+                    (kind == 'load' and any(isinstance(ty, dict) and 'fwd' in ty and ty['fwd'] not in self.decl for _, ty, _ in d['fields']))
         if owner is None and c not in self.fn[kind] and not gen_fails:
             if d['wiz'] and not any(x in self.attr[kind] for x in [c] + d['mro']):
                 self.attr[kind][c] = self.i
@@ -341,17 +361,49 @@ class Sim:
         cfg = self.cfg_of(root)
         for pos, n in enumerate(touched):
             e = self.eff(n, None if pos == 0 else cfg)
-            # every Meta under which n's tables were (re)written by an earlier call
-            # (once two different Metas met on n, WHICH earlier call filled which table decides the outcome,
-            #  so every earlier call that touched n counts as a cause)
-            if any(g != e for g, j in self.gov.get(n, [])) or n in self.f10_dirty:
-                self.f10_dirty.add(n)
-                regions.setdefault('F10', set()).update(j for g, j in self.gov.get(n, []))
-            self.gov.setdefault(n, []).append((e, self.i))
-            if self.taints40(n):
-                regions.setdefault('F40', set()).update(self.taints40(n))
-            if self.taints11(n):
-                regions.setdefault('F11', set()).update(self.taints11(n))
+            self._touch(n, e, pos > 0 and cfg is not None, regions)
+            if k == 'dump' and e.get('auto_tags'):
+                # dump_func_for_dataclass with auto_assign_tags also builds LOAD machinery (dumpers.py:318-337):
+                if e.get('v1'):
+                    # v1: the class's own MAIN load function is generated (and installed), cascading ITS Meta
+                    self._gen_load_main(n, regions)
+                else:
+                    # default engine: the parsers of its fields, i.e. nested load functions under the same config
+                    for m in self.tree(n)[1:]:
+                        c2 = None if pos == 0 and cfg is None else cfg
+                        self._touch(m, self.eff(m, cfg), cfg is not None, regions)
+        return regions
+
+    def _gen_load_main(self, n, regions):
+        d = self.decl[n]
+        if n in self.fn['load'] or any(isinstance(ty, dict) and 'fwd' in ty and ty['fwd'] not in self.decl for _, ty, _ in d['fields']):
+            return
+        if d['wiz'] and not any(x in self.attr['load'] for x in [n] + d['mro']):
+            self.attr['load'][n] = self.i
+        self.fn['load'].add(n)
+        cfg = self.cfg_of(n)
+        for pos, m in enumerate(self.tree(n)):
+            self._touch(m, self.eff(m, None if pos == 0 else cfg), pos > 0 and cfg is not None, regions)
+
+    def _touch(self, n, e, cascaded, regions):
+        """class n's tables are generated / rewritten under effective Meta e"""
+        # F10 variant: ANY cascade re-binds the nested class's own (merged) Meta; if the class had received its
+        # load key transform on the default-engine loader and became v1 later, the re-bind moves the transform
+        # onto its v1 loader
+        rebind = cascaded and n in self.ltr_nov1 and (self.own(n) or {}).get('v1')
+        if rebind and n not in self.f10_dirty:
+            self.f10_dirty.add(n)
+            regions.setdefault('F10', set()).add(self.i)
+        # (once two different Metas met on n, WHICH earlier call filled which table decides the outcome,
+        #  so every earlier call that touched n counts as a cause)
+        if any(g != e for g, j in self.gov.get(n, [])) or n in self.f10_dirty:
+            self.f10_dirty.add(n)
+            regions.setdefault('F10', set()).update(j for g, j in self.gov.get(n, []))
+        self.gov.setdefault(n, []).append((e, self.i))
+        if self.taints40(n):
+            regions.setdefault('F40', set()).update(self.taints40(n))
+        if self.taints11(n):
+            regions.setdefault('F11', set()).update(self.taints11(n))
         return regions
 
 
@@ -385,13 +437,11 @@ def needed_defs(history, i):
             add(b)
         for _, ty, _ in decl[c]['fields']:
             if isinstance(ty, dict):
-                add(ty['nested'])
+                add(ty.get('nested', ty.get('fwd')))
 
     def add_val(v):
-        if isinstance(v, dict) and 'c' in v:
-            add(v['c'])
-            for _, x in v['f']:
-                add_val(x)
+        for x in Sim.inst_classes(v):
+            add(x)
     if o['op'] == 'load':
         add(o['cid'])
     else:
@@ -456,6 +506,14 @@ def gen_meta_x(r):
     if r.random() < 0.35:
         k = r.choice(sorted(SHARED_MAPS))
         m['jk2f'] = {'obj': k, 'map': SHARED_MAPS[k]}
+    if r.random() < 0.15:
+        # a Meta that carries nothing but settings that must not cascade (explicit key mapping, recursive flag)
+        m = {'ltr': None, 'dtr': None, 'raise': None, 'skipdef': None, 'rec': m.get('rec'), 'jk2f': m.get('jk2f') or
+             {'obj': 1, 'map': SHARED_MAPS[1]}}
+    if r.random() < 0.3:
+        m['v1'] = True
+        if r.random() < 0.5:
+            m['v1_case'] = r.choice(['AUTO', 'CAMEL', 'SNAKE'])
     return m
 
 
@@ -487,6 +545,8 @@ class Prog:
         self.touched = set()
         self.seen_keys = {}
         self.seen_vt = set()
+        self.pending_fwd = None
+        self.allow_fwd = True
         self.neg = {}          # cid -> [(pool field name | None, key spelling)]: keys the class was loaded with and does not know
 
     # ---- classes
@@ -521,8 +581,9 @@ class Prog:
             names = r.sample(FIELD_POOL, r.choice([1, 2, 2, 3]))
             req, opt = [], []
             for n in names:
-                ty = r.choice(['int', 'int', 'str'] + (['datetime', 'any', 'any', 'bool'] if self.ext else []))
-                if ty in ('datetime', 'any'):
+                ty = r.choice(['int', 'int', 'str'] + (['datetime', 'any', 'any', 'bool', 'ulit_str', 'ulit_str', 'ulit_int',
+                                                         'opt_int', 'list_int', 'dict_int'] if self.ext else []))
+                if ty in ('datetime', 'any', 'ulit_str', 'ulit_int', 'opt_int', 'list_int', 'dict_int'):
                     req.append([n, ty, None])
                 elif ty == 'bool':
                     opt.append([n, ty, r.random() < 0.5])
@@ -532,6 +593,12 @@ class Prog:
                     req.append([n, ty, None])
             if self.ext and r.random() < 0.15:
                 opt.append(['cond_f', 'badcond', True])
+            if self.ext and r.random() < 0.2:
+                req.append(['rest', 'catchall', None])
+            if self.ext and self.allow_fwd and kind == 'leaf' and r.random() < 0.18 and len(self.decl) < self.max_classes - 1:
+                # forward reference to the class that will be defined NEXT (same module)
+                req.append(['fwd_items', {'fwd': self.next, 'qn': self.qn_base + self.next}, None])
+                self.pending_fwd = c
             nest = []
             if kind == 'root' or force_nested:
                 targets = force_nested or [r.choice(existing) for _ in range(r.choice([1, 1, 2]))]
@@ -552,7 +619,9 @@ class Prog:
         out = [c]
         for _, ty, _ in self.decl[c]['fields']:
             if isinstance(ty, dict):
-                out.extend(self.tree(ty['nested']))
+                t = ty.get('nested', ty.get('fwd'))
+                if t in self.decl:
+                    out.extend(self.tree(t))
         return out
 
     # ---- documents and instances
@@ -578,7 +647,11 @@ class Prog:
             else:
                 key = name if r.random() < 0.6 else r.choice(spellings(name))
             self.seen_keys[(c, key)] = True
-            if isinstance(ty, dict):
+            if ty == 'catchall':
+                continue
+            if isinstance(ty, dict) and 'fwd' in ty:
+                val = [self.gen_doc(ty['fwd'], 'good')] if ty['fwd'] in self.decl else [{'x': 1}]
+            elif isinstance(ty, dict):
                 if i == bad_at:
                     val = r.choice([None, 5])
                 else:
@@ -591,6 +664,16 @@ class Prog:
                 val = 'not-a-date' if i == bad_at else r.choice(['2020-01-01T00:00:00+00:00', '2021-05-06T07:08:09Z', 1577836800])
             elif ty in ('bool', 'badcond'):
                 val = r.choice([True, False, 'true', 'no', 1])
+            elif ty == 'ulit_str':      # the VALUE, not its type, decides which Union member applies
+                val = r.choice(['fast', 'slow', 'fast', 'custom', 'x9'])
+            elif ty == 'ulit_int':
+                val = r.choice([1, 2, 1, 7, 40])
+            elif ty == 'opt_int':
+                val = r.choice([None, 3, '4'])
+            elif ty == 'list_int':
+                val = r.choice([[1, '2'], [], [5]])
+            elif ty == 'dict_int':
+                val = r.choice([{'a': 1}, {}, {'b': '2'}])
             else:
                 val = r.choice([5, 'x', None, 'v2'])
             doc[key] = val
@@ -626,8 +709,17 @@ class Prog:
         d = self.decl[c]
         fs = []
         for name, ty, dflt in d['fields']:
+            if isinstance(ty, dict) and 'fwd' in ty:
+                fs.append([name, {'l': [self.gen_inst(ty['fwd'], novel)] if ty['fwd'] in self.decl else []}])
+                continue
             if isinstance(ty, dict):
                 fs.append([name, self.gen_inst(ty['nested'], novel)])
+                continue
+            if ty in ('ulit_str', 'ulit_int', 'opt_int', 'list_int', 'dict_int', 'catchall'):
+                fs.append([name, {'ulit_str': {'s': r.choice(['fast', 'custom'])}, 'ulit_int': {'i': r.choice([1, 7])},
+                                  'opt_int': r.choice([None, {'i': 3}]), 'list_int': {'l': [{'i': 1}, {'i': 2}]},
+                                  'dict_int': {'d': [['a', {'i': 1}]]},
+                                  'catchall': {'d': r.choice([[], [['zz', {'i': 1}]]])}}[ty]])
                 continue
             if ty == 'datetime':
                 fs.append([name, {'dt': r.choice(['2020-01-01T00:00:00+00:00', '2021-05-06T07:08:09+00:00'])}])
@@ -685,7 +777,14 @@ def gen_history(r, n_ops, ext=False):
     while len(p.ops) < n_ops:
         x = r.random()
         left = n_ops - len(p.ops)
-        if len(p.decl) < p.max_classes and x < (0.45 if len(p.decl) < 2 else 0.22) and left > 1:
+        if p.pending_fwd is not None:
+            # generation-time failure, then the cause is removed (the referenced class gets defined), then a retry
+            c0, p.pending_fwd = p.pending_fwd, None
+            if r.random() < 0.8:
+                p.use(c=c0, kind=r.choice(['load', 'load', 'dump']))
+            p.new_class('leaf')
+            p.use(c=c0, kind='load')
+        elif len(p.decl) < p.max_classes and x < (0.45 if len(p.decl) < 2 else 0.22) and left > 1:
             p.new_class()
         elif x < 0.34 and p.bind() is not None:
             pass
@@ -758,7 +857,7 @@ def shrink(ctx, h, fails, budget=40):
             if o['op'] == 'define':
                 if o['base'] is not None and o['base'] not in defined:
                     return False
-                if any(isinstance(ty, dict) and ty['nested'] not in defined for _, ty, _ in o['fields']):
+                if any(isinstance(ty, dict) and 'nested' in ty and ty['nested'] not in defined for _, ty, _ in o['fields']):
                     return False
                 defined.add(o['cid'])
             elif o['op'] in ('bind', 'load'):
